@@ -230,6 +230,12 @@ def _cases(draw, tier):
             named = sorted(c['list']['r']['register'] for c in spec.values() if 'r' in c['list'])
             if named and 'operand_sets' not in mv['operands']:
                 ops = [{'k': 'reg', 'r': draw(st.sampled_from(named)), 'deco': None}]
+            if not ops and not named and draw(st.integers(0, 4)) == 0:
+                # operands written behind a macro whose chosen variant takes none: unless another variant takes them,
+                # no variant accepts the statement
+                ops = [{'k': 'expr', 'e': draw(st.sampled_from([['num', 5, 'dec'], ['lab', 'nowhere_'], ['lab', labels[0]]]))}]
+                if draw(st.booleans()):
+                    ops.append({'k': 'reg', 'r': 'a', 'deco': None})
             body.append({'t': 'macro', 'mn': mname, 'ops': ops})
             if named and 'operand_sets' not in mv['operands'] and draw(st.booleans()):
                 # the same macro again with another of the listed registers
